@@ -33,9 +33,9 @@ def main():
         "setup_cmd": "./setup.sh",
         "hooks": hooks,
         "engines": [
-            {"name": "E1-kani", "path": "/verif/kani", "serves_properties": sorted(CLAIMED),
+            {"name": "E1-kani", "path": "/verif/kani", "serves_properties": sorted({p for x in H.HARNESSES if x["tier"] in ("quick", "thorough") for p in x["props"] if p in CLAIMED}),
              "kind_free_text": "Kani 0.68 / CBMC 6.11 bounded model checking of the compiled crate (harness bodies compiled in-crate, symbolic inputs, unwinding assertions on); counterexamples replayed natively by /verif/replay"},
-            {"name": "E3-mirsmt", "path": "/verif/mirsmt", "serves_properties": ["C03", "C07", "C10", "C11", "C12", "C13", "C14", "C16"],
+            {"name": "E3-mirsmt", "path": "/verif/mirsmt", "serves_properties": ["C03", "C06", "C07", "C10", "C11", "C12", "C13", "C14", "C16", "C17", "C18"],
              "kind_free_text": "MIR -> SMT-LIB for small loop-free glue that Kani cannot compile (async closures): nightly MIR dump regenerated per run, symbolic execution of the named bodies, z3 cross-checked with cvc5; a satisfiable query is confirmed by a native witness program"},
         ],
         "checks": [],
@@ -52,7 +52,7 @@ def main():
                 "thorough_cmd": "./check %s --tier thorough" % pid,
                 "evidence_file": "/verif/evidence/%s.json" % pid,
                 "replay_cmd_template": "./check --replay {path}",
-                "engine": "E1-kani",
+                "engine": "E1-kani" if any(pid in x["props"] and x["tier"] in ("quick", "thorough") for x in H.HARNESSES) else "E3-mirsmt",
                 "level_claimed": {"category": "model_checking", "text": text, "design_ref": "DESIGN.md §4 %s, §10" % pid},
                 "level_note": note,
                 "technique": "solver-based checking of the real code: Kani/CBMC bounded model checking (SAT verdict over all inputs within stated bounds), plus MIR->SMT (z3/cvc5) for async-closure glue where registered; native replay of every counterexample",
